@@ -21,10 +21,10 @@ func init() {
 		Technique: "sibling agreement over the five HandlerList.Filter*/Add*Filter functions (loop shape, first-stop edge, PushBack only), table agreement (callback point -> handler kind in code, documentation and call sites), reachability/must-pass queries from each verdict arm of every Filter* call site in bfe_server",
 		Meta: core.Meta{
 			Level: "other",
-			Explanation: "Decides: (list) each HandlerList.Filter<K> iterates hl.handlers from Front() by Next() only, invokes <K>Filter.Filter<K> on the element with the function's own arguments, leaves the loop on the edge verdict != BfeHandlerGoOn without any path back to the filter call, continues only through Next(), and returns the last verdict (or BfeHandlerGoOn for an empty chain); each Add<K>Filter only PushBack()s New<K>Filter(callback) under a successful type assertion and no other container/list mutator is called in bfe_module (registration order = call order); generic<K>Filter.Filter<K> forwards to the registered function; AddFilter dispatches on handlerType to the matching Add<K>Filter; the point->kind table of NewBfeCallbacks agrees with the documentation table and with the Filter<K> method called on GetHandlerList(point) at each of the 9 call sites in bfe_server (each under hl != nil). " +
+			Explanation: "Decides: (list) each HandlerList.Filter<K> iterates hl.handlers from Front() by Next() only, invokes <K>Filter.Filter<K> on the element with the function's own arguments, leaves the loop on the edge verdict != BfeHandlerGoOn without any path back to the filter call, continues only through Next(), and returns the last verdict (or BfeHandlerGoOn for an empty chain); each Add<K>Filter only PushBack()s New<K>Filter(callback) under a successful type assertion and no other container/list mutator is called in bfe_module (registration order = call order); generic<K>Filter.Filter<K> forwards to the registered function; AddFilter dispatches on handlerType to the matching Add<K>Filter, looks the list up in the receiver's own table (the field NewBfeCallbacks fills and GetHandlerList serves), and reports success only as the verdict of an Add<K>Filter call (rule add-registers: every error value it returns is an Add<K>Filter result, a constructed error, or nil on an edge where an Add<K>Filter result was tested nil — no de-duplication or other shortcut may drop a filter silently); the point->kind table of NewBfeCallbacks agrees with the documentation table and with the Filter<K> method called on GetHandlerList(point) at each of the 9 call sites in bfe_server (each under hl != nil). " +
 				"(verdicts) at each call site the verdicts the property names are compared (request hooks: Close, Finish, Redirect, Response; forward: Finish; response hooks: Finish; accept hooks: Close) and from each verdict arm: Close => action closeDirectly on every path to return and no path to a response write (Redirect, sendResponse, any ResponseWriter method), to clusterInvoke, or (accept hooks) to the TLS handshake / readRequest / serveRequest; Finish => action closeAfterReply on every path to return and no path to clusterInvoke / RoundTrip / Balance; Redirect => every path calls Redirect(rw, …), none reaches clusterInvoke, and no feasible path (isRedirect flag propagated) calls sendResponse; Response => no path to findProduct/findCluster/clusterInvoke and sendResponse is reachable with a response operand that includes the module's response. conn.serveRequest suppresses finishRequest for closeDirectly and reports keep-alive only if both ServeHTTP and FinishReq returned keepAlive; conn.serve leaves the request loop when serveRequest reports no keep-alive; the deferred c.close() is registered before the accept hooks. " +
 				"Not covered: what modules do inside callbacks; verdicts a hook does not compare (e.g. Close at HandleForward/HandleReadResponse) are treated by bfe as GoOn — reported as a note, not decided; HTTP/2 and SPDY call ServeHTTP through their own response writers (only the action value is checked here); the bytes of the reply.",
-			RuleText:    "obligations = per Filter<K>/Add<K>Filter/generic<K>Filter function the sibling clauses; per callback point the table rows; per Filter* call site in bfe_server the kind agreement, the nil guard, each required verdict and each reaction clause of each compared verdict; the action consumers in http_conn.go",
+			RuleText:    "obligations = per Filter<K>/Add<K>Filter/generic<K>Filter function the sibling clauses; each return of AddFilter; per callback point the table rows; per Filter* call site in bfe_server the kind agreement, the nil guard, each required verdict and each reaction clause of each compared verdict; the action consumers in http_conn.go",
 			Assumptions: []string{"container/list preserves insertion order for PushBack/Front/Next", "response writes in bfe_server go through Redirect, ReverseProxy.sendResponse or methods of the ResponseWriter parameter"},
 		},
 		Run: runC48,
@@ -42,6 +42,10 @@ func init() {
 			{Name: "accept-close-ignored", File: "bfe_server/http_conn.go", Old: "		retVal = hl.FilterAccept(c.session)\n		if retVal == bfe_module.BfeHandlerClose {\n			// close the connection\n			return\n		}\n	}\n\n	if tlsConn, ok := c.rwc.(*bfe_tls.Conn); ok {", New: "		retVal = hl.FilterAccept(c.session)\n		if retVal == bfe_module.BfeHandlerClose {\n			// close the connection\n			log.Logger.Debug(\"closing\")\n		}\n	}\n\n	if tlsConn, ok := c.rwc.(*bfe_tls.Conn); ok {", Expect: "verdict-close|conn.serve:HandleAccept"},
 			{Name: "keepalive-or", File: "bfe_server/http_conn.go", Old: "	isKeepAlive = (ret1 == keepAlive) && (ret2 == keepAlive)", New: "	isKeepAlive = (ret1 == keepAlive) || (ret2 == keepAlive)", Expect: "action-honoured|serveRequest:keepalive"},
 			{Name: "close-directly-finishes-request", File: "bfe_server/http_conn.go", Old: "		if ret1 == closeDirectly {\n			res.prepareForCloseConn()\n		} else {\n			res.finishRequest()\n		}", New: "		if ret1 == closeDirectly {\n			res.prepareForCloseConn()\n		}\n		res.finishRequest()", Expect: "action-honoured|serveRequest:closeDirectly"},
+			{Name: "add-filter-skips-lookalike", File: "bfe_module/bfe_callback.go", Old: "	var err error\n	switch hl.handlerType {\n	case HandlersAccept:", New: "	if hl.handlers.Len() > 0 && fmt.Sprint(hl.handlers.Back().Value) == fmt.Sprint(f) {\n		return nil\n	}\n	var err error\n	switch hl.handlerType {\n	case HandlersAccept:", Expect: "add-registers|AddFilter"},
+			{Name: "add-filter-error-swallowed", File: "bfe_module/bfe_callback.go", Old: "	return err\n}\n\n// GetHandlerList gets", New: "	if err != nil {\n		log.Logger.Warn(\"AddFilter(): %s\", err)\n	}\n	return nil\n}\n\n// GetHandlerList gets", Expect: "add-registers|AddFilter"},
+			{Name: "add-filter-into-shadow-table", File: "bfe_module/bfe_callback.go", Old: "	hl, ok := bcb.callbacks[point]\n\n	if !ok {\n		return fmt.Errorf(", New: "	shadow := NewBfeCallbacks()\n	hl, ok := shadow.callbacks[point]\n\n	if !ok {\n		return fmt.Errorf(", Expect: "add-dispatch|AddFilter:table"},
+			{Name: "silent-add-filter-early-return", File: "bfe_module/bfe_callback.go", Old: "	case HandlersAccept:\n		err = hl.AddAcceptFilter(f)\n", New: "	case HandlersAccept:\n		if err := hl.AddAcceptFilter(f); err != nil {\n			return err\n		}\n		return nil\n", Silent: true},
 			{Name: "silent-switch-to-if", File: "bfe_server/reverseproxy.go", Old: "		retVal := hl.FilterResponse(request, request.HttpResponse)\n		switch retVal {\n		case bfe_module.BfeHandlerFinish:\n			// close the connection after response\n			action = closeAfterReply\n			return\n		}", New: "		verdict := hl.FilterResponse(request, request.HttpResponse)\n		if verdict == bfe_module.BfeHandlerFinish {\n			log.Logger.Debug(\"finish\")\n			action = closeAfterReply\n			return\n		}", Silent: true},
 		},
 	})
@@ -328,6 +332,8 @@ func c48list(c *core.Ctx, goOn int64) {
 	c.Min("wrapper", 5)
 	// AddFilter dispatch
 	if fn := nxFuncOrMissing(c, c48mod, "BfeCallbacks.AddFilter"); fn != nil {
+		c48addRegisters(c, fn)
+		c48sameTable(c, fn)
 		for _, k := range c48kinds {
 			want, okK := nxConstOf(c, c48mod, "Handlers"+k)
 			calls := core.Calls(fn, c48mod+".HandlerList.Add"+k+"Filter")
